@@ -20,11 +20,13 @@ import (
 	"github.com/cronokirby/saferith"
 	"github.com/fxamacker/cbor/v2"
 	"github.com/taurusgroup/multi-party-sig/pkg/ecdsa"
+	"github.com/taurusgroup/multi-party-sig/pkg/math/curve"
 	"github.com/taurusgroup/multi-party-sig/pkg/party"
 	"github.com/taurusgroup/multi-party-sig/pkg/protocol"
 	"github.com/taurusgroup/multi-party-sig/pkg/taproot"
 	"github.com/taurusgroup/multi-party-sig/protocols/cmp"
 	cmpkeygen "github.com/taurusgroup/multi-party-sig/protocols/cmp/keygen"
+	frostkeygen "github.com/taurusgroup/multi-party-sig/protocols/frost/keygen"
 	"github.com/taurusgroup/multi-party-sig/protocols/doerner"
 	"github.com/taurusgroup/multi-party-sig/protocols/frost"
 )
@@ -430,6 +432,7 @@ func tamperSign(c *Ctx, kind string) {
 		}
 	}
 	sigs := []J{}
+	presigs := []J{}
 	pres := 0
 	for _, id := range honest {
 		switch v := res.Results[id].(type) {
@@ -441,10 +444,11 @@ func tamperSign(c *Ctx, kind string) {
 			sigs = append(sigs, J{"id": hx([]byte(id)), "R": ptHex(v.R), "s": scHex(v.S)})
 		case *ecdsa.PreSignature:
 			pres++
+			presigs = append(presigs, J{"id": hx([]byte(id)), "psid": hx(v.ID), "R": ptHex(v.R)})
 		}
 	}
 	in := J{"phase": "sign", "kind": kind, "n": n, "t": t, "ids": idsHex(ids), "signers": idsHex(signers), "cheater": hx([]byte(cheater)),
-		"tampering": tm.applied, "msg": hx(msg), "sigs": sigs, "presignatures": pres, "blame": culpritsJ(res, honest), "honest": idsHex(honest)}
+		"tampering": tm.applied, "msg": hx(msg), "sigs": sigs, "presignatures": pres, "presigs": presigs, "blame": culpritsJ(res, honest), "honest": idsHex(honest)}
 	switch base {
 	case "frost":
 		in["pub"] = ptHex(m0.fr[signers[0]].PublicKey)
@@ -631,6 +635,403 @@ func tamperCmpKeygenShare(c *Ctx) {
 	c.Count("sess/tamper/keygen/cmp-share-range")
 }
 
+// frostLateBadResponse: FROST signing by MORE than t+1 signers in which one signer's response z_i is wrong (+1) and
+// reaches every honest signer AFTER all honest responses. The wrong response is provable (it fails its own
+// verification-share equation): every honest signer that reaches a verdict of its own must name exactly that signer.
+func frostLateBadResponse(c *Ctx, kind string) {
+	n := 4 + c.Intn(2)
+	t := 1 + c.Intn(n-2) // t+1 < n
+	m0, _ := newMaterial(c, kind, n, t, c.Bytes(8))
+	if !m0.complete() {
+		return
+	}
+	signers := m0.ids
+	cheater := signers[c.Intn(n)]
+	msg := msgOfLen(c)
+	sid := c.Bytes(8)
+	hs := map[party.ID]protocol.Handler{}
+	for _, id := range signers {
+		var h protocol.Handler
+		var err error
+		if kind == "frost" {
+			h, err = protocol.NewMultiHandler(frost.Sign(m0.fr[id], signers, msg), sid)
+		} else {
+			h, err = protocol.NewMultiHandler(frost.SignTaproot(m0.tp[id], signers, msg), sid)
+		}
+		if err != nil {
+			return
+		}
+		hs[id] = h
+	}
+	applied := []string{}
+	stash := map[party.ID]*protocol.Message{}
+	cnt := map[party.ID]int{}
+	need := func(to party.ID) int { return n - 2 } // honest signers other than `to`
+	bad := func(m *protocol.Message) *protocol.Message {
+		var tree interface{}
+		if cbor.Unmarshal(m.Data, &tree) != nil {
+			return nil
+		}
+		var ls []path
+		leaves(tree, nil, &ls)
+		for _, p := range ls {
+			if b, ok := getAt(tree, p).([]byte); ok && len(b) == 32 {
+				nb := append([]byte{}, b...)
+				nb[31]++
+				setAt(tree, p, nb)
+				d, err := cbor.Marshal(tree)
+				if err != nil {
+					return nil
+				}
+				cp := *m
+				cp.Data = d
+				if len(applied) == 0 {
+					applied = append(applied, fmt.Sprintf("r3: %s last byte +1 for every recipient, delivered after all honest responses", pathStr(p)))
+				}
+				return &cp
+			}
+		}
+		return nil
+	}
+	filter := func(m *protocol.Message, to party.ID) []*protocol.Message {
+		if m.RoundNumber != 3 || !m.Broadcast || to == cheater {
+			return []*protocol.Message{m}
+		}
+		if m.From == cheater {
+			x := bad(m)
+			if x == nil {
+				return []*protocol.Message{m}
+			}
+			if cnt[to] >= need(to) {
+				return []*protocol.Message{x}
+			}
+			stash[to] = x
+			return nil
+		}
+		cnt[to]++
+		out := []*protocol.Message{m}
+		if cnt[to] >= need(to) && stash[to] != nil {
+			out = append(out, stash[to])
+			stash[to] = nil
+		}
+		return out
+	}
+	res := runSessions(c, hs, "fifo", filter)
+	honest := []party.ID{}
+	for _, id := range signers {
+		if id != cheater {
+			honest = append(honest, id)
+		}
+	}
+	sigs := []J{}
+	for _, id := range honest {
+		switch v := res.Results[id].(type) {
+		case frost.Signature:
+			sigs = append(sigs, J{"id": hx([]byte(id)), "R": ptHex(v.R), "z": scHex(frostSigZ(v))})
+		case taproot.Signature:
+			sigs = append(sigs, J{"id": hx([]byte(id)), "sig": hx(v)})
+		}
+	}
+	in := J{"phase": "sign", "kind": kind, "n": n, "t": t, "ids": idsHex(m0.ids), "signers": idsHex(signers), "cheater": hx([]byte(cheater)),
+		"tampering": applied, "msg": hx(msg), "sigs": sigs, "blame": culpritsJ(res, honest), "honest": idsHex(honest),
+		"expect_named": len(applied) > 0}
+	switch kind {
+	case "frost":
+		in["pub"] = ptHex(m0.fr[signers[0]].PublicKey)
+	case "frost-taproot":
+		in["xonly"] = hx(m0.tp[signers[0]].PublicKey)
+	}
+	var impl interface{} = J{"ok": true}
+	if res.Panic != "" {
+		impl = J{"outcome": "PANIC", "detail": res.Panic}
+	}
+	c.Emit("tamper", in, impl)
+	c.Count("sess/tamper/sign/" + kind + "-late-bad-response")
+}
+
+// frostLowDegreeDealer: FROST key generation in which one dealer's polynomial has degree t-1 and everything it sends is
+// consistent with it. The deviation is provable from its round-2 broadcast alone (the commitment has t coefficients):
+// every honest party that reaches a verdict of its own must name exactly the dealer - and never itself.
+func frostLowDegreeDealer(c *Ctx, kind string) {
+	n := 3 + c.Intn(2)
+	t := 1 + c.Intn(n-1)
+	ids := genIDs(c, n)
+	cheater := ids[c.Intn(n)]
+	sid := c.Bytes(8)
+	hs := map[party.ID]protocol.Handler{}
+	for _, id := range ids {
+		var st protocol.StartFunc
+		if kind == "frost" {
+			st = frost.Keygen(secp, id, ids, t)
+		} else {
+			st = frost.KeygenTaproot(id, ids, t)
+		}
+		if id == cheater {
+			st = frostkeygen.VerifLowDegreeStart(st)
+		}
+		h, err := protocol.NewMultiHandler(st, sid)
+		if err != nil {
+			return
+		}
+		hs[id] = h
+	}
+	res := runSessions(c, hs, randOrder(c), nil)
+	honest := []party.ID{}
+	parties := []J{}
+	for _, id := range ids {
+		if id == cheater {
+			continue
+		}
+		honest = append(honest, id)
+		switch v := res.Results[id].(type) {
+		case *frost.Config:
+			parties = append(parties, frostCfgJ(v))
+		case *frost.TaprootConfig:
+			parties = append(parties, taprootCfgJ(v))
+		}
+	}
+	in := J{"phase": "keygen", "kind": kind, "n": n, "t": t, "ids": idsHex(ids), "cheater": hx([]byte(cheater)),
+		"tampering": []string{"the dealer's polynomial has degree t-1 (commitment, proof and shares consistent with it)"},
+		"parties": parties, "blame": culpritsJ(res, honest), "honest": idsHex(honest), "expect_named": true}
+	var impl interface{} = J{"ok": true}
+	if res.Panic != "" {
+		impl = J{"outcome": "PANIC", "detail": res.Panic}
+	}
+	c.Emit("tamper", in, impl)
+	c.Count("sess/tamper/keygen/" + kind + "-low-degree-dealer")
+}
+
+// presignIDEquivocation: offline CMP presigning in which one signer's LAST broadcast (round 7, after which no echo is
+// compared) carries, for ONE honest recipient, another well-formed presignature-ID contribution than the one it committed
+// to. Honest signers that finish must hold the same presignature (ID and R).
+func presignIDEquivocation(c *Ctx) {
+	n, t := 3, 1+c.Intn(2)
+	m0, _ := newMaterial(c, "cmp", n, t, c.Bytes(8))
+	if !m0.complete() {
+		return
+	}
+	signers := m0.ids
+	cheater := signers[c.Intn(n)]
+	honest := []party.ID{}
+	for _, id := range signers {
+		if id != cheater {
+			honest = append(honest, id)
+		}
+	}
+	victim := honest[c.Intn(len(honest))]
+	sid := c.Bytes(8)
+	hs := map[party.ID]protocol.Handler{}
+	for _, id := range signers {
+		h, err := protocol.NewMultiHandler(cmp.Presign(m0.cm[id], signers, nil), sid)
+		if err != nil {
+			return
+		}
+		hs[id] = h
+	}
+	applied := []string{}
+	filter := func(m *protocol.Message, to party.ID) []*protocol.Message {
+		if m.From != cheater || m.RoundNumber != 7 || !m.Broadcast || to != victim {
+			return []*protocol.Message{m}
+		}
+		var tree interface{}
+		if cbor.Unmarshal(m.Data, &tree) != nil {
+			return []*protocol.Message{m}
+		}
+		mm, ok := tree.(map[interface{}]interface{})
+		if !ok {
+			return []*protocol.Message{m}
+		}
+		old, ok := mm["PresignatureID"].([]byte)
+		if !ok {
+			return []*protocol.Message{m}
+		}
+		nb := c.Bytes(len(old))
+		nb[0] |= 1
+		mm["PresignatureID"] = nb
+		d, err := cbor.Marshal(mm)
+		if err != nil {
+			return []*protocol.Message{m}
+		}
+		cp := *m
+		cp.Data = d
+		applied = append(applied, fmt.Sprintf("r7->%s: /PresignatureID replaced by another well-formed value (the other signers get the committed one)", to))
+		return []*protocol.Message{&cp}
+	}
+	res := runSessions(c, hs, "random", filter)
+	presigs := []J{}
+	for _, id := range honest {
+		if v, ok := res.Results[id].(*ecdsa.PreSignature); ok {
+			presigs = append(presigs, J{"id": hx([]byte(id)), "psid": hx(v.ID), "R": ptHex(v.R)})
+		}
+	}
+	in := J{"phase": "sign", "kind": "cmp-presign", "n": n, "t": t, "ids": idsHex(m0.ids), "signers": idsHex(signers), "cheater": hx([]byte(cheater)),
+		"tampering": applied, "msg": "", "sigs": []J{}, "presignatures": len(presigs), "presigs": presigs, "blame": culpritsJ(res, honest),
+		"honest": idsHex(honest), "pub": ptHex(m0.cm[signers[0]].PublicPoint())}
+	var impl interface{} = J{"ok": true}
+	if res.Panic != "" {
+		impl = J{"outcome": "PANIC", "detail": res.Panic}
+	}
+	c.Emit("tamper", in, impl)
+	c.Count("sess/tamper/sign/cmp-presign-id-equivocation")
+}
+
+// cmpSignRushingNegation: CMP signing in which one signer RUSHES in the last round: it waits for every other signer's
+// sigma share and then broadcasts sigma_c - 2*(sum of all shares), so that the shares add up to -s. (R, -s) has the
+// right x-coordinate but is not a valid signature for the library's format (R is transmitted as a point): honest signers
+// must abort ("failed to validate signature"), never output it.
+func cmpSignRushingNegation(c *Ctx) {
+	n, t := 3, 1+c.Intn(2)
+	m0, _ := newMaterial(c, "cmp", n, t, c.Bytes(8))
+	if !m0.complete() {
+		return
+	}
+	signers := m0.ids
+	if t == 1 && c.Intn(2) == 0 {
+		signers = party.NewIDSlice(subset(c, m0.ids, 2))
+	}
+	cheater := signers[c.Intn(len(signers))]
+	msg := msgOfLen(c)
+	sid := c.Bytes(8)
+	hs := map[party.ID]protocol.Handler{}
+	closed := map[party.ID]bool{}
+	for _, id := range signers {
+		h, err := protocol.NewMultiHandler(cmp.Sign(m0.cm[id], signers, msg, nil), sid)
+		if err != nil {
+			return
+		}
+		hs[id] = h
+	}
+	type item struct {
+		m  *protocol.Message
+		to party.ID
+	}
+	var queue []item
+	var held *protocol.Message
+	sigma := map[party.ID]curve.Scalar{}
+	applied := []string{}
+	panicMsg := ""
+	getSigma := func(m *protocol.Message) curve.Scalar {
+		var mm map[string][]byte
+		if cbor.Unmarshal(m.Data, &mm) != nil {
+			return nil
+		}
+		x := secp.NewScalar()
+		if x.UnmarshalBinary(mm["SigmaShare"]) != nil {
+			return nil
+		}
+		return x
+	}
+	release := func() {
+		if held == nil || len(sigma) != len(signers) {
+			return
+		}
+		total := secp.NewScalar()
+		for _, x := range sigma {
+			total.Add(x)
+		}
+		bad := secp.NewScalar().Set(sigma[cheater]).Sub(total).Sub(total)
+		b, _ := bad.MarshalBinary()
+		d, err := cbor.Marshal(map[string][]byte{"SigmaShare": b})
+		if err != nil {
+			return
+		}
+		cp := *held
+		cp.Data = d
+		applied = append(applied, "r5: the cheater waits for every other sigma share and broadcasts sigma_c - 2*sum (the shares add up to -s)")
+		for _, to := range signers {
+			if to != cheater {
+				queue = append(queue, item{&cp, to})
+			}
+		}
+		held = nil
+	}
+	collect := func() {
+		for _, id := range signers {
+			if closed[id] {
+				continue
+			}
+		loop:
+			for {
+				select {
+				case m, ok := <-hs[id].Listen():
+					if !ok {
+						closed[id] = true
+						break loop
+					}
+					if m.RoundNumber == 5 && m.Broadcast {
+						if x := getSigma(m); x != nil {
+							sigma[id] = x
+							if id == cheater {
+								held = m
+								release()
+								continue
+							}
+						}
+					}
+					for _, to := range signers {
+						if to != id && m.IsFor(to) {
+							queue = append(queue, item{m, to})
+						}
+					}
+					release()
+				default:
+					break loop
+				}
+			}
+		}
+	}
+	collect()
+	for steps := 0; len(queue) > 0 && steps < 20000 && panicMsg == ""; steps++ {
+		it := queue[0]
+		queue = queue[1:]
+		done := make(chan interface{}, 1)
+		go func() {
+			defer func() { done <- recover() }()
+			hs[it.to].Accept(it.m)
+		}()
+	wait:
+		for {
+			select {
+			case r := <-done:
+				if r != nil {
+					panicMsg = fmt.Sprint(r)
+				}
+				break wait
+			default:
+				collect()
+			}
+		}
+		collect()
+	}
+	res := sessionResult{Results: map[party.ID]interface{}{}, Errors: map[party.ID]error{}}
+	honest := []party.ID{}
+	sigs := []J{}
+	for _, id := range signers {
+		if id == cheater {
+			continue
+		}
+		honest = append(honest, id)
+		r, err := hs[id].Result()
+		if err != nil {
+			res.Errors[id] = err
+		} else {
+			res.Results[id] = r
+			if v, ok := r.(*ecdsa.Signature); ok {
+				sigs = append(sigs, J{"id": hx([]byte(id)), "R": ptHex(v.R), "s": scHex(v.S)})
+			}
+		}
+	}
+	in := J{"phase": "sign", "kind": "cmp", "n": n, "t": t, "ids": idsHex(m0.ids), "signers": idsHex(signers), "cheater": hx([]byte(cheater)),
+		"tampering": applied, "msg": hx(msg), "sigs": sigs, "blame": culpritsJ(res, honest), "honest": idsHex(honest),
+		"pub": ptHex(m0.cm[signers[0]].PublicPoint())}
+	var impl interface{} = J{"ok": true}
+	if panicMsg != "" {
+		impl = J{"outcome": "PANIC", "detail": panicMsg}
+	}
+	c.Emit("tamper", in, impl)
+	c.Count("sess/tamper/sign/cmp-rushing-negation")
+}
+
 // equivocateKeygen: the deviating party runs TWO well-formed executions of a key generation (same id, independent
 // randomness): one faces the first honest party, the other the second. Each honest party sees only valid messages, but
 // the two see different broadcasts of the deviating party. Both executions hear every honest message. The honest parties
@@ -808,6 +1209,14 @@ func init() {
 				tamperKeygen(c, k)
 			}
 		}
+		// a dealer whose polynomial has the wrong degree, consistently
+		for i := 0; i < 2+c.N/15; i++ {
+			frostLowDegreeDealer(c, []string{"frost", "frost-taproot"}[i%2])
+		}
+		// a provably wrong FROST response delivered after all honest ones, with more than t+1 signers
+		for i := 0; i < 2+c.N/15; i++ {
+			frostLateBadResponse(c, []string{"frost", "frost-taproot"}[i%2])
+		}
 		// equivocation by two well-formed executions of the deviating party (fast protocols; CMP in the thorough tier)
 		for i := 0; i < 2+c.N/15; i++ {
 			equivocateKeygen(c, []string{"frost", "frost-taproot"}[i%2])
@@ -815,6 +1224,10 @@ func init() {
 		if c.Tier == "thorough" {
 			equivocateKeygen(c, "cmp")
 		}
+		// CMP signing with a rushing signer that negates the sum of the sigma shares (once per run)
+		cmpSignRushingNegation(c)
+		// offline presigning with an equivocated presignature-ID contribution in the last broadcast (once per run)
+		presignIDEquivocation(c)
 		// CMP keygen with a well-formed encryption of an out-of-range share (once per run: ~10 s)
 		tamperCmpKeygenShare(c)
 		// a slice of CMP (sign, presign, keygen): seconds per session
